@@ -662,6 +662,30 @@ fn poke(id: &mut usize, out: &mut Vec<Obs>) {
     }
 }
 
+/// FOR increments: a whole-number counter with a step of each numeric type. The counter stays a value of its own
+/// type on every pass (the typed-variable invariant runs at every statement boundary) and holds the first value beyond
+/// the limit afterwards; an increment that leaves the counter's range raises Overflow at the loop.
+fn for_increment(id: &mut usize, out: &mut Vec<Obs>) {
+    for t in [T::I, T::L] {
+        let max: i128 = if t == T::I { 32767 } else { 2147483647 };
+        for s in T::ALL {
+            for (from, to, step, after) in [(1i128, 3i128, 1i128, Some(4i128)), (10, 1, -4, Some(-2)), (max - 7, max, 5, None), (-max, -max - 1, -3, None)] {
+                if after.is_none() && t == T::L && s == T::S {
+                    continue; // counter + step is computed in SINGLE: near 2^31 the sum is not exact
+                }
+                *id += 1;
+                let k = *id;
+                let exp = match after {
+                    Some(a) => vec![Out::Stored(a as f64)],
+                    None => vec![Out::Overflow],
+                };
+                let lines = vec![format!("SW{} = {}", s.sfx(), source_literal(s, w(step))), format!("TV{} = 7", t.sfx()), format!("FOR TV{} = {} TO {} STEP SW{}", t.sfx(), from, to, s.sfx()), format!("SX{} = TV{} + 0", t.sfx(), t.sfx()), "NEXT".to_string()];
+                out.push(Obs { id: k, route: "for-increment", s, t, v: w(step), lines, show: Some(format!("PRINT \"K{}\"; TV{}", k, t.sfx())), stdin: None, data: None, exp, arith: false });
+            }
+        }
+    }
+}
+
 fn matrix() -> Vec<Obs> {
     let mut id = 0usize;
     let mut out = vec![];
@@ -676,6 +700,7 @@ fn matrix() -> Vec<Obs> {
     logical(&mut id, &mut out);
     huge_text(&mut id, &mut out);
     poke(&mut id, &mut out);
+    for_increment(&mut id, &mut out);
     out
 }
 
